@@ -14,7 +14,8 @@ from .core import ModelError
 
 NS = types.SimpleNamespace
 _CALLS = {'len': len, 'min': min, 'max': max, 'sum': sum, 'int': int, 'abs': abs, 'any': any, 'all': all, 'bool': bool,
-          'range': range, 'enumerate': enumerate, 'zip': zip, 'list': list, 'tuple': tuple, 'sorted': sorted, 'reversed': reversed}
+          'range': range, 'enumerate': enumerate, 'zip': zip, 'list': list, 'tuple': tuple, 'sorted': sorted, 'reversed': reversed,
+          'next': lambda it, *d: next(iter(it), *d), 'set': set, 'str': str}
 
 
 def ev(e, env):
@@ -74,6 +75,8 @@ def ev(e, env):
     if isinstance(e, (ast.Tuple, ast.List)):
         r = [ev(x, env) for x in e.elts]
         return tuple(r) if isinstance(e, ast.Tuple) else r
+    if isinstance(e, ast.Dict) and not e.keys:
+        return {}
     if isinstance(e, (ast.GeneratorExp, ast.ListComp)):
         out = []
 
@@ -117,9 +120,48 @@ def bind(target, value, env):
         raise ModelError(f'minieval: binding target {ast.unparse(target)}')
 
 
+class Returned(Exception):
+    def __init__(self, value):
+        self.value = value
+
+
+def call_function(fdef, args, env=None):
+    """Value returned by running the body of fdef (subset) with positional args bound to its parameters."""
+    e = dict(env or {})
+    params = [a.arg for a in fdef.args.args]
+    if len(params) != len(args):
+        raise ModelError('minieval: call arity')
+    e.update(zip(params, args))
+    body = fdef.body
+    if body and isinstance(body[0], ast.Expr) and isinstance(body[0].value, ast.Constant) and isinstance(body[0].value.value, str):
+        body = body[1:]
+    try:
+        run(body, e)
+    except Returned as r:
+        return r.value
+    return None
+
+
 def run(stmts, env):
-    """Execute assignments / if / for / break over the subset; returns 'break' | 'continue' | None."""
+    """Execute assignments / if / for / break over the subset; returns 'break' | 'continue' | None; `return` raises Returned."""
     for st in stmts:
+        if isinstance(st, ast.Return):
+            raise Returned(ev(st.value, env) if st.value is not None else None)
+        if isinstance(st, ast.Expr) and isinstance(st.value, ast.Constant):
+            continue
+        if isinstance(st, ast.Expr) and isinstance(st.value, ast.Call) and isinstance(st.value.func, ast.Attribute) \
+                and st.value.func.attr in ('append', 'extend', 'reverse', 'insert', 'add') and not st.value.keywords:
+            recv = ev(st.value.func.value, env)
+            if not isinstance(recv, (list, set)):
+                raise ModelError(f'minieval: {st.value.func.attr} on {type(recv).__name__}')
+            getattr(recv, st.value.func.attr)(*[ev(a, env) for a in st.value.args])
+            continue
+        if isinstance(st, ast.Assign) and len(st.targets) == 1 and isinstance(st.targets[0], ast.Subscript):
+            base = ev(st.targets[0].value, env)
+            if not isinstance(base, (list, dict)):
+                raise ModelError('minieval: item store')
+            base[ev(st.targets[0].slice, env)] = ev(st.value, env)
+            continue
         if isinstance(st, ast.Assign) and len(st.targets) == 1:
             bind(st.targets[0], ev(st.value, env), env)
         elif isinstance(st, ast.AugAssign) and isinstance(st.target, ast.Name):
